@@ -187,6 +187,11 @@ package parser
 //@   at return assert [C01] rule.Error.Err == nil && (rule.RecordingRule != nil || rule.AlertingRule != nil) ==> nullFree(recordNode) && nullFree(alertNode) && nullFree(exprNode)
 // a recording rule carries no for / keep_firing_for / annotations
 //@   at return assert [C01] rule.Error.Err == nil && rule.RecordingRule != nil ==> forPart == nil && keepFiringForPart == nil && annotationsPart == nil
+// C07 (which comments belong to a rule): yaml.v3 attaches a comment above a rule, and the trailing comment of a rule
+// written in flow style (`- {record: x, expr: y} # pint disable ...`), to the rule's mapping node itself: neither is
+// dropped - the first key of the rule carries them when the rule's comments are collected
+//@   at call mergeComments assert [C07] iter1 == 1 && node.LineComment != "" ==> arg0.LineComment != ""
+//@   at call mergeComments assert [C07] iter1 == 1 && node.HeadComment != "" ==> arg0.HeadComment != ""
 // C06 (a rule's line range encloses all of its fields): every scalar field node that is built has its own line envelope
 // (PositionRanges.Lines of its positions) taken before the next key is looked at - that envelope is what extends
 // the rule's last line
